@@ -3,7 +3,7 @@ From Coq Require Import List Arith ZArith.
 Import ListNotations.
 From Exmex.Model Require Import Base EvalBinary Lexer Flat.
 From Exmex.Spec Require Import RefSem.
-From Exmex.Proofs Require Import ChainMachine SortedRef EvalBinaryCorrect FlatEval WalkSim C01Main C01Vars Accept LexSpaced LexFlex.
+From Exmex.Proofs Require Import ChainMachine SortedRef EvalBinaryCorrect FlatEval WalkSim C01Main C01Vars Accept LexSpaced LexFlex LexLocal.
 Open Scope nat_scope.
 
 (* The main theorem.  For EVERY data type (carrier C), every operator table whose binary priorities lie in 0..99,
@@ -120,6 +120,32 @@ Proof.
 Qed.
 
 
+(* ... and for ANY text that is locally readable (Proofs/LexLocal.v): pieces -- numbers, parentheses, braced or BARE variables,
+   operator names, names of constants -- with any spacing, no terminator asked for (`2*x-sin(y)+PI`), whose tokens are the
+   rendering of a well-formed tree *)
+Theorem C01_text_entry_point_locally_readable :
+  forall (D : Type) (C : carrier D) (tb : optable) (is_literal : str -> option nat) (R : D -> D -> Prop),
+  wf_table tb = true ->
+  (forall a, R a a) -> (forall a b, R a b -> R b a) -> (forall a b c, R a b -> R b c -> R a c) ->
+  (forall k a a' b b', R a a' -> R b b' -> R (binf C k a b) (binf C k a' b')) ->
+  (forall k a a', R a a' -> R (unf C k a) (unf C k a')) ->
+  (forall o, comm_of tb o = true -> forall a b c, R (binf C o (binf C o a b) c) (binf C o a (binf C o b c))) ->
+  forall (c : chain (D:=D)) (items : list (piece (D:=D) * nat)) (vals : list D),
+  wf_chain tb c = true -> map (ptok C) (map fst items) = flatten c ->
+  all_readable C tb is_literal items [] ->
+  length vals = length (find_parsed_vars (flatten c)) ->
+  exists fx v,
+    parse_wo_compile C tb true is_literal (ptexts C tb items) = Ok fx /\
+    fvars fx = find_parsed_vars (flatten c) /\
+    eval_flat C fx vals = Ok v /\
+    R v (ref_chain C tb (find_parsed_vars (flatten c)) vals c).
+Proof.
+  intros D C tb is_literal R Hwf Hr Hs Ht Hb Hu Ha c items vals Hwfc Htoks Hread Hlen.
+  pose proof (tokenize_local C tb is_literal items Hread) as Htok. rewrite Htoks in Htok.
+  destruct (C01_token_entry_point D C tb R Hwf Hr Hs Ht Hb Hu Ha c (ptexts C tb items) vals Hwfc Hlen) as (_ & fx & v & H1 & H2 & H3 & H4).
+  exists fx, v. unfold parse_wo_compile. rewrite Htok. cbn [bind]. repeat split; assumption.
+Qed.
+
 (* when the flagged operators really are associative the two values are EQUAL *)
 Corollary C01_exact_when_flags_are_sound :
   forall (D : Type) (C : carrier D) (tb : optable),
@@ -193,3 +219,4 @@ Print Assumptions C01_free_terms.
 Print Assumptions C01_any_flat_expression_is_precedence.
 Print Assumptions C01_text_entry_point.
 Print Assumptions C01_text_entry_point_free_spacing.
+Print Assumptions C01_text_entry_point_locally_readable.
